@@ -170,7 +170,8 @@ def synth_element(rng, el, with_neg=None, max_charge=None):
     max_charge = rng.choice([1, 2, 2]) if max_charge is None else max_charge
     out = {}
     for z in range(0, max_charge + 1):
-        lv = rand_levels(rng, ie[z], rng.choice([1, 3, 6]), "sorted")
+        # level tables as users write them: ascending, or grouped by configuration (a level above the limit before lower ones)
+        lv = rand_levels(rng, ie[z], rng.choice([1, 3, 6, 10]), rng.choice(["sorted", "sorted", "shuffled", "one_late", "reversed"]))
         nm = el + "+" * z
         out[nm] = _sp.Monatomic(nm, {el: 1}, M - z * 5.4858e-7, z, ie[z], lv, 10 ** rng.uniform(-30.5, -29.5), rng.choice([1, 2, 3]),
                                 rng.uniform(2, 8) if z == 0 else None, rand_ecs(rng) if z == 0 else None, [], ["synthetic"])
